@@ -36,7 +36,8 @@ def run_case(case: Dict[str, Any]) -> CaseResult:
 
 def strategy(tier: str) -> Any:
     return sc.sched_case(tier=tier, modes=("ctl", "ctl", "ctl-ex"), min_sites=3, max_sites=9, wide=True,
-                         seq_rate=0.12, prio=(-2, 4), pure_kind_rate=0.5, max_mc=4, flag_rate=0.35, config_rate=0.2)
+                         seq_rate=0.12, prio=(-2, 4), pure_kind_rate=0.5, max_mc=4, flag_rate=0.35, config_rate=0.2,
+                         n_setup=2, setup_call_rate=0.1)
 
 
 def run_shard(H: Harness) -> None:
